@@ -159,12 +159,11 @@ func (u *Unit) instantiateLemmas(asserts []string) []string {
 	}
 	heads := map[string]bool{}
 	for _, l := range lemmas {
-		heads[l.Fn] = true
+		for _, p := range l.Pats {
+			heads[p.Fn] = true
+		}
 	}
-	seenApp := map[string]bool{}
-	seenFact := map[string]bool{}
-	var facts []string
-	pending := map[string]*sx{}
+	all := map[string]*sx{}
 	for _, a := range asserts {
 		if !strings.Contains(a, "(") {
 			continue
@@ -174,57 +173,90 @@ func (u *Unit) instantiateLemmas(asserts []string) []string {
 			continue
 		}
 		for _, x := range xs {
-			collectApps(x, heads, pending)
+			collectApps(x, heads, all)
 		}
 	}
+	seenFact := map[string]bool{}
+	var facts []string
 	dummy := newState()
-	for round := 0; round < 3 && len(pending) > 0 && len(facts) < 600; round++ {
-		next := map[string]*sx{}
-		keys := make([]string, 0, len(pending))
-		for k := range pending {
+	for round := 0; round < 3 && len(facts) < 800; round++ {
+		byHead := map[string][]*sx{}
+		keys := make([]string, 0, len(all))
+		for k := range all {
 			keys = append(keys, k)
 		}
 		sortStrings(keys)
 		for _, k := range keys {
-			if seenApp[k] {
+			a := all[k]
+			byHead[a.list[0].atom] = append(byHead[a.list[0].atom], a)
+		}
+		added := false
+		for _, l := range lemmas {
+			if strings.HasPrefix(l.Label, "guide.") && !guideMode {
 				continue
 			}
-			seenApp[k] = true
-			app := pending[k]
-			head := app.list[0].atom
-			sig, ok := u.p.prelude.sigs[head]
-			if !ok {
-				continue
-			}
-			for _, l := range lemmas {
-				if l.Fn != head || len(l.Params) != len(app.list)-1 {
-					continue
+			// cross product over the patterns
+			var rec func(i int, names map[string]Term)
+			count := 0
+			rec = func(i int, names map[string]Term) {
+				if count > 300 {
+					return
 				}
-				if strings.HasPrefix(l.Label, "guide.") && !guideMode {
-					continue
+				if i == len(l.Pats) {
+					count++
+					env := &Env{u: u, s: dummy, names: names}
+					f, err := env.formula(l.Body)
+					if err != nil {
+						panic(abortUnit{fmt.Sprintf("%s:%d: lemma %s: %v", l.File, l.Line, l.Fn, err)})
+					}
+					if seenFact[f] {
+						return
+					}
+					seenFact[f] = true
+					facts = append(facts, f)
+					added = true
+					if xs, err := parseSx(f); err == nil {
+						for _, x := range xs {
+							collectApps(x, heads, all)
+						}
+					}
+					return
 				}
-				names := map[string]Term{}
-				for i, pn := range l.Params {
-					names[pn] = Term{S: app.list[i+1].String(), Sort: sig.args[i]}
+				pat := l.Pats[i]
+				sig, ok := u.p.prelude.sigs[pat.Fn]
+				if !ok {
+					return
 				}
-				env := &Env{u: u, s: dummy, names: names}
-				f, err := env.formula(l.Body)
-				if err != nil {
-					panic(abortUnit{fmt.Sprintf("%s:%d: lemma %s: %v", l.File, l.Line, l.Fn, err)})
-				}
-				if seenFact[f] {
-					continue
-				}
-				seenFact[f] = true
-				facts = append(facts, f)
-				if xs, err := parseSx(f); err == nil {
-					for _, x := range xs {
-						collectApps(x, heads, next)
+				for _, app := range byHead[pat.Fn] {
+					if len(app.list)-1 != len(pat.Params) {
+						continue
+					}
+					n2 := map[string]Term{}
+					for k, v := range names {
+						n2[k] = v
+					}
+					okm := true
+					for j, pn := range pat.Params {
+						if pn == "_" {
+							continue
+						}
+						t := Term{S: app.list[j+1].String(), Sort: sig.args[j]}
+						if prev, dup := n2[pn]; dup && prev.S != t.S {
+							okm = false
+							break
+						}
+						n2[pn] = t
+					}
+					if okm {
+						rec(i+1, n2)
 					}
 				}
 			}
+			rec(0, map[string]Term{})
 		}
-		pending = next
+		if !added {
+			break
+		}
 	}
 	return facts
 }
